@@ -4,7 +4,7 @@ import os
 import vlib
 
 LEVEL = "model_checking"
-ROOT = [os.path.join(vlib.HARNESS, "root", "common_test.go"), os.path.join(vlib.HARNESS, "root", "status_test.go")]
+ROOT = [os.path.join(vlib.HARNESS, "root", f) for f in ("common_test.go", "status_test.go", "lifecycle_test.go", "requests_test.go")]
 CMD = [os.path.join(vlib.HARNESS, "cmddastard", "startup_test.go")]
 CRASH_AT_PC = {1: (1, False), 2: (2, True), 3: (2, False), 4: (3, False), 5: (4, False)}
 
@@ -123,6 +123,15 @@ def run_all(ctx, scens, rscens, nrandom):
                 e["hasreal"] = False
                 e["real"] = {"kind": "none", "h": "", "restored": {}}
             events.append(e)
+    # end to end: real SourceControl + real RunClientUpdater, the file after the updater's own delayed save
+    tp3 = ctx.path("trace_e2e.ndjson")
+    rc, out = vlib.go_test(ctx, "", ROOT, "TestVerifStatusE2E$",
+                           env={"VERIF_OUT": tp3, "VERIF_REAL_CLIENTUPDATER": 1}, timeout=600)
+    if rc != 0:
+        raise vlib.MachineryError("status end-to-end driver failed:\n" + out[-3000:])
+    e2e = vlib.read_ndjson(tp3)
+    ctx.notes["end_to_end_sessions"] = len(e2e)
+    events.extend(e2e)
     mp = ctx.path("trace_all.ndjson")
     vlib.write_ndjson(mp, events)
     viols, done = vlib.validate_trace(ctx, "StatusTrace", "StatusTrace.cfg", mp, heap="8g", timeout=1800)
@@ -145,6 +154,8 @@ def judge(ctx, events, viols, allscens):
         idx = v["line"] - s["first"]
         e = s["events"][idx]
         sig = {"predicate": v["predicate"], "event": e["ev"]}
+        if e["ev"] == "E2E":
+            sig["variant"] = e.get("variant")
         if e["ev"] == "Restart":
             prev = [p for p in s["events"][:idx] if p["ev"] == "Save"]
             sig["crash"] = prev[-1]["crash"] if prev else -1
